@@ -101,7 +101,7 @@ Proof.
         -- destruct (e_w e) as [| | | |m|[|m|]]; try discriminate; reflexivity.
         -- destruct (e_w e) as [| | | |m'|[|m'|]] eqn:Ew; try discriminate; apply minfo_ok_none; cbn; rewrite Ew; discriminate.
         -- intros c0 Hc0. cbn in Hc0. injection Hc0 as <-. unfold c. cbn. split; [exact Hcompat|]. split; [apply Nat.lt_succ_diag_r|]. split; [apply Nat.le_refl|].
-           split; [exists (bridges s); split; [apply (inv_hist v s I) | exact Hfp] | intros _; exact Hfp].
+           split; [exists (bridges s); split; [rewrite Nat.sub_diag; apply (inv_hist v s I) | exact Hfp] | intros _; exact Hfp].
         -- destruct Hans as [A [B C]]. split; [exact A|]. split; [exact B|].
            intros c0 a Hc0 [Hx|Hx]; injection Hc0 as <-; discriminate.
         -- exact Hstuck.
@@ -169,7 +169,7 @@ Proof.
     split; [|split]; cbn; try discriminate.
     + intros m' Hm. unfold r in Hm. destruct (lookup (f_fp m) (bridges s)) as [u|] eqn:Hl; [|discriminate].
       injection Hm as <-. cbn. exists c. split; [exact Hc|]. split; [exact Ho|]. split; [exact Hn|]. split.
-      * exists (bridges s). split; [apply (inv_hist v s I) | rewrite <- Hfp; exact Hl].
+      * exists 0%nat, (bridges s). split; [exact Hle|]. split; [apply (inv_hist v s I) | rewrite <- Hfp; exact Hl].
       * destruct (Nat.eq_dec (c_epoch c) (length (br_hist s))) as [He|He]; [|right; apply Nat.le_neq; split; assumption].
         left. specialize (Hcur He). rewrite <- Hfp, Hl in Hcur. congruence.
     + intros Hm. unfold r in Hm. destruct (lookup (f_fp m) (bridges s)) as [u|] eqn:Hl; [discriminate|].
@@ -389,7 +389,7 @@ Proof.
   - exact Ipo.
   - exact Ic.
   - exact Id.
-  - left. reflexivity.
+  - reflexivity.
 Qed.
 
 (* ------------------------------------------------------------------ *)
